@@ -43,6 +43,7 @@ import (
 	"reflect"
 	"runtime"
 	"runtime/debug"
+	"sort"
 	"strconv"
 	"strings"
 	"sync"
@@ -296,6 +297,7 @@ type world struct {
 	closes    int
 	handled   map[string]int
 	upgErrs   []string
+	closeErrs []string // what the engine's close notifications said, in order
 	acceptErr []string
 
 	gbase  GBase
@@ -502,6 +504,9 @@ func (w *world) start() error {
 	e.OnClose(func(c net.Conn, err error) {
 		w.mu.Lock()
 		w.closes++
+		if len(w.closeErrs) < 16 {
+			w.closeErrs = append(w.closeErrs, fmt.Sprintf("%T: %v", c, err))
+		}
 		w.mu.Unlock()
 	})
 	w.engine = e
@@ -653,7 +658,7 @@ func (w *world) observe() view {
 			// the server closed it; its removal from the tables follows on a running goroutine
 			if c.open && !c.halfClosed && !c.noted {
 				c.noted = true
-				w.obs("other", "connection-closed-by-server-at-a-quiet-point"+qual(c), "c%d (half %s, state %s): the peer had neither closed nor asked for a close, yet the kernel reports the end of its stream", c.id, c.half, c.state)
+				w.obs("other", "connection-closed-by-server-at-a-quiet-point"+qual(c), "c%d (half %s, state %s, server-side socket %s): the peer had neither closed nor asked for a close, yet the kernel reports the end of its stream; descriptors and epoll interest lists of the process at that moment: %s", c.id, c.half, c.state, c.srvIno, procSnapshot())
 			}
 			c.open = false
 			if c.endedBy == "" {
@@ -669,6 +674,31 @@ func (w *world) observe() view {
 	}
 	v.desc = strings.Join(parts, " ")
 	return v
+}
+
+// procSnapshot lists the descriptors of the process and, for epoll descriptors, their interest
+// lists (diagnostics of a rare anomaly only).
+func procSnapshot() string {
+	var b strings.Builder
+	fds := FDs()
+	var ks []int
+	for k := range fds {
+		ks = append(ks, k)
+	}
+	sort.Ints(ks)
+	for _, k := range ks {
+		fmt.Fprintf(&b, "%d->%s ", k, fds[k])
+		if strings.Contains(fds[k], "eventpoll") {
+			if info, err := os.ReadFile(fmt.Sprintf("/proc/self/fdinfo/%d", k)); err == nil {
+				for _, l := range strings.Split(string(info), "\n") {
+					if strings.HasPrefix(l, "tfd:") {
+						b.WriteString("{" + strings.Join(strings.Fields(l), " ") + "} ")
+					}
+				}
+			}
+		}
+	}
+	return b.String()
 }
 
 func (w *world) allParked() bool {
@@ -1988,5 +2018,10 @@ func Run(c Case, caps Caps) *Result {
 		w.quiet(fmt.Sprintf("event %d (%s on c%d)", i, e.A, e.C))
 	}
 	w.end()
+	if len(res.Obs) > 0 {
+		w.mu.Lock()
+		w.logf("close notifications of the engine, in order: %q", w.closeErrs)
+		w.mu.Unlock()
+	}
 	return res
 }
